@@ -195,7 +195,7 @@ def gen_history(ctx, rng, tier, faults, force=None):
     if script:
         L = max(L, len(script) + rng.randint(0, 6))
     if faults:
-        weights = {'call': 32, 'repeat': 13, 'alias': 8, 'mutate_result': 13, 'mutate_arg': 8, 'bad_call': 8, 'interrupt': 14, 'recycle': 4}
+        weights = {'call': 32, 'repeat': 13, 'alias': 8, 'mutate_result': 13, 'mutate_arg': 8, 'bad_call': 8, 'interrupt': 14, 'recycle': 4, 'clock_jump': 3}
     else:
         weights = {'call': 58, 'repeat': 24, 'alias': 12, 'recycle': 6}
     ops = []
@@ -203,7 +203,7 @@ def gen_history(ctx, rng, tier, faults, force=None):
     follow = None           # (ref) the caller just edited an object of call `ref`: usually it asks the same thing again
     for i in range(L):
         kind = wchoice(rng, weights)
-        if kind != 'call' and kind != 'bad_call' and kind != 'interrupt' and not callish:
+        if kind not in ('call', 'bad_call', 'interrupt') and not callish:
             kind = 'call'
         if follow is not None and rng.random() < 0.6 and 'f' in ops[follow]:
             ops.append({'op': 'repeat', 'id': i, 'f': ops[follow]['f'], 'a': copy.deepcopy(ops[follow]['a'])})
@@ -232,6 +232,10 @@ def gen_history(ctx, rng, tier, faults, force=None):
             else:
                 op['op'] = 'call'
                 op.update(_usable_call(g, ctx, mix, None))
+        elif kind == 'clock_jump':
+            # fault: the clock jumps (seconds to years forward, or wall time stepping back)
+            op['dt'] = rng.choice([0.5, 61.0, 3601.0, 86401.0, 400 * 86400.0, -10.0, -7200.0])
+            follow = rng.choice(callish)
         elif kind == 'recycle':
             # an earlier call that passed a list or dict; same function, new content
             cands = [j for j in callish if 'f' in ops[j] and any(a[0] in ('L', 'D') for a in ops[j]['a'])]
@@ -350,6 +354,7 @@ def run_one(ctx, run_seed, tier, faults, force=None):
         'landed_locs': sorted({r['loc'] for r in recs if r.get('landed') and r.get('loc')}),
         'mut_applied': sum(1 for r in recs if r.get('applied')),
         'recycled': sum(1 for r in recs if r.get('recycled')),
+        'clock_jumps': out.get('clock_jumps', 0), 'clock_reads': out.get('clock_reads', 0),
         'raised': sum(1 for r in calls if r['outcome'][0] == 'exc' and not r.get('landed')),
         'funcs': sorted({r['f'] for r in calls}),
         'probes': out.get('probes') or {},
